@@ -149,3 +149,9 @@ def run(cx):
         #  an ok_or_else closure or a written-out `None => return Err(..)`)
         hb = cx.body(f"{M}::WAIT_NANOS_HEADER")
         ob.require(const_of(Origins(hb).of_local(0)) == '"wait-nanos"', "header-const", "WAIT_NANOS_HEADER != \"wait-nanos\"", hb.path)
+
+    with cx.ob("C19.5", "R-SHAPE", "one layer out: clones of the rate limiter share the keyed limiter and its clock (field-by-field Clone) and poll_ready is the inner service's readiness only") as ob:
+        for ty in ("anemo_tower::rate_limit::RateLimit", "anemo_tower::rate_limit::RateLimitLayer"):
+            check_fieldwise_clone(ob, prog, ty)
+        check_poll_ready_delegates(ob, prog, "anemo_tower::rate_limit::RateLimit")
+        check_peer_id_identity_derived(ob, prog)
